@@ -162,8 +162,19 @@ pub fn resolve_encoding<'encoding>(
                 }
             }
             
-            report.message(
-                diagn::Message::fuse_topmost(msgs));
+            if msgs.len() > 0
+            {
+                report.message(
+                    diagn::Message::fuse_topmost(msgs));
+            }
+            else
+            {
+                // No candidate failed a constraint: they were all
+                // left unresolved (e.g. by a still-unknown value)
+                report.error_span(
+                    "failed to resolve instruction",
+                    instr_span);
+            }
         }
 
         return Ok(None);
